@@ -24,6 +24,11 @@ _QUOTED_PATTERN = re.compile(
 _WHITESPACE_PATTERN = re.compile(r"\s+")
 _KEYWORD_PATTERN = re.compile(r"[A-Za-z_]\w*")
 
+# SQLite reads $name(...), :name(...), @name(...) and #name(...) as ONE variable token, whatever
+# stands between the parentheses - quote characters included: "SELECT $a(') ; DELETE FROM t --'"
+# is two statements.  The quote scanner cannot be trusted on text containing such a token.
+_VARIABLE_WITH_SUFFIX = re.compile(r"(?<![:\w])[$@:#][\w$][^\s()'\"`;,]*\(")
+
 _READONLY_KEYWORDS = frozenset({"SELECT", "SHOW", "DESCRIBE", "EXPLAIN"})
 _WRITE_KEYWORDS = frozenset(
     {
@@ -173,6 +178,9 @@ def is_readonly_sql(
         - CTEs (WITH ... AS) are handled by analyzing the main statement.
         - Side-effect functions (e.g., SQLite's writefile) are NOT detected.
     """
+    if _VARIABLE_WITH_SUFFIX.search(sql):
+        return None
+
     if _has_multiple_statements(sql):
         return None
 
